@@ -344,6 +344,10 @@ func (s *Script) RenderSat(pos int, cond Term) string {
 		b.WriteByte('\n')
 	}
 	for _, l := range s.lines[:pos] {
+		if strings.HasPrefix(l, "(assert ") && (strings.Contains(l, "(forall ") || strings.Contains(l, "(exists ")) {
+			// covers look for ground contradictions; quantified facts only make the solvers answer unknown
+			continue
+		}
 		b.WriteString(l)
 		b.WriteByte('\n')
 	}
@@ -362,6 +366,8 @@ const Prelude = `(set-option :produce-models true)
 (define-fun godiv ((a Int) (b Int)) Int (ite (>= a 0) (ite (> b 0) (div a b) (- (div a (- b)))) (ite (> b 0) (- (div (- a) b)) (div (- a) (- b)))))
 (define-fun gomod ((a Int) (b Int)) Int (- a (* b (godiv a b))))
 (define-fun wf-slice ((s Slice)) Bool (and (>= (s-off s) 0) (>= (s-len s) 0) (<= (s-len s) (s-cap s)) (<= (s-cap s) 9223372036854775807) (>= (s-arr s) 0) (=> (= (s-arr s) 0) (and (= (s-cap s) 0) (= (s-off s) 0)))))
+(declare-fun sumlen ((Array Int Slice) Int Int) Int)
+(assert (forall ((r (Array Int Slice)) (lo Int) (hi Int)) (! (and (>= (sumlen r lo hi) 0) (=> (<= hi lo) (= (sumlen r lo hi) 0))) :pattern ((sumlen r lo hi)))))
 (define-fun nil-slice () Slice (mk-slice 0 0 0 0))
 (define-fun nil-iface () Iface (mk-iface 0 0))
 `
